@@ -229,3 +229,37 @@ def tv_method(ctx, lean, fam, meth, domain, nrandom, rtol=1e-9, atol=1e-12, inva
     ctx.count(f'{fam}.{meth}.bitexact', bitexact)
     ctx.ob(name, first_bad is None, 'tie', first_bad or f'{total} values, {bitexact} bit-identical')
     return first_bad
+
+
+def purity_problems(make_obj, meth, args_a, args_b, other=None):
+    """Call `meth` on a fresh object with arrays `args_a`, then (on `other()` if given, else the same object) with
+    the equally shaped `args_b`; report
+      input-mutated        an argument array differs from what the caller passed
+      result-aliases-input the result shares memory with an argument
+      earlier-result-changed  the first result changed after the second call (shared workspace / view)
+      call-order-dependent the first call repeated afterwards gives another value
+    Values are compared bit for bit; returns a list of (kind, detail)."""
+    out = []
+    a = [np.array(x, dtype=float, copy=True) for x in args_a]
+    b = [np.array(x, dtype=float, copy=True) for x in args_b]
+    a0 = [x.copy() for x in a]
+    obj = make_obj()
+    with np.errstate(all='ignore'):
+        r1 = getattr(obj, meth)(*a)
+    for x, x0 in zip(a, a0):
+        if not np.array_equal(x, x0, equal_nan=True):
+            out.append(('input-mutated', {'before': x0.tolist()[:6], 'after': x.tolist()[:6]}))
+            break
+    if isinstance(r1, np.ndarray) and any(np.shares_memory(r1, x) for x in a):
+        out.append(('result-aliases-input', {}))
+    keep = np.array(r1, copy=True)
+    obj2 = other() if other is not None else obj
+    with np.errstate(all='ignore'):
+        getattr(obj2, meth)(*b)
+    if not np.array_equal(np.asarray(r1), keep, equal_nan=True):
+        out.append(('earlier-result-changed', {'first': keep.tolist()[:6], 'now': np.asarray(r1).tolist()[:6]}))
+    with np.errstate(all='ignore'):
+        r3 = getattr(obj, meth)(*[x.copy() for x in a0])
+    if not np.array_equal(np.asarray(r3), keep, equal_nan=True):
+        out.append(('call-order-dependent', {'first': keep.tolist()[:6], 'repeated': np.asarray(r3).tolist()[:6]}))
+    return out
